@@ -51,6 +51,7 @@ type Env struct {
 	TestBase       *TestRun
 	Flaky          map[string]bool // tests whose verdict differs between two runs of the unformatted file
 	OutputUnstable bool            // the printed output differs between those two runs: only verdicts are compared
+	Concurrent     bool            // the source starts goroutines: printed lines are compared as a multiset
 }
 
 func (e Env) unit() string {
@@ -317,11 +318,12 @@ func observe(S string, mode Mode, runner Runner, env Env) (o Observed) {
 			o.Findings = append(o.Findings, Finding{Kind: "formatted-rejected", Detail: "the compiler rejects the formatted program: " + fb.Err})
 		case fbudget:
 			o.Budget = true
-		case !sb.Equal(fb):
-			// a difference counts only when both programs are self-stable
+		case !sb.EqualFor(S, fb):
+			// a difference counts only when both programs are self-stable: each is
+			// run three more times and must behave exactly as it did the first time
 			stable := true
 
-			for i := 0; i < 2 && stable; i++ {
+			for i := 0; i < 3 && stable; i++ {
 				s2, _ := runProgram(S)
 				f2, _ := runProgram(o.F)
 				stable = s2.Equal(sb) && f2.Equal(fb)
@@ -395,13 +397,20 @@ func observe(S string, mode Mode, runner Runner, env Env) (o Observed) {
 
 		o.FBeh = fb.String()
 
-		if !sb.Equal(fb) {
-			s2, _, ok2 := child(S)
-			f2, _, ok3 := child(o.F)
+		if !sb.EqualFor(S, fb) {
+			// a difference counts only if it reproduces: three more runs of each
+			okAll, stable := true, true
+
+			for i := 0; i < 3 && okAll && stable; i++ {
+				s2, _, ok2 := child(S)
+				f2, _, ok3 := child(o.F)
+				okAll = ok2 && ok3
+				stable = okAll && s2.Equal(sb) && f2.Equal(fb)
+			}
 
 			switch {
-			case !ok2 || !ok3:
-			case !s2.Equal(sb) || !f2.Equal(fb):
+			case !okAll:
+			case !stable:
 				o.Flaky = true
 			case lineSensitive(S, func(x string) (string, bool) { b, bud, ok := child(x); return b.String(), ok && !bud }, sb.String()):
 				o.LineSens = true
@@ -527,7 +536,7 @@ func compareTestRuns(a, b TestRun, env Env) string {
 		return fmt.Sprintf("PASS/FAIL vector differs: original %s / formatted %s", trunc(diffVector(va, vb), 400), "")
 	}
 
-	if len(flaky) == 0 && !env.OutputUnstable && a.Output != b.Output {
+	if len(flaky) == 0 && !env.OutputUnstable && a.Output != b.Output && !(env.Concurrent && sortedLines(a.Output) == sortedLines(b.Output)) {
 		return "test output differs: " + firstDiff(a.Output, b.Output)
 	}
 
